@@ -303,6 +303,10 @@ class CHECK(Check):
                     ctxs = self.contexts[d] if (n <= 2 or thorough and n == 3) else ['select', 'where']
                     for ctx in ctxs:
                         out.append((d, ctx, lt, ()))
+                    if n <= 2:
+                        # layout deviation: every blank of the text (also the blanks inside IS NOT / NOT IN / NOT LIKE) as a line break / tab / two blanks
+                        for lay in ('nl', 'tab', 'sp2'):
+                            out.append((d, 'where', lt, (), lay))
                     if redundant:
                         for path in all_paths(lt):
                             out.append((d, 'select', lt, (path,)))
@@ -311,12 +315,14 @@ class CHECK(Check):
 
     def run(self, case):
         res = Result()
-        d, ctx, t, pp = case
+        d, ctx, t, pp = case[:4]
         marks = set()
         e = show(t, pp, marks=marks)
         if ctx in ('where', 'having', 'on') and () in marks:
             pass
         text = CONTEXTS[ctx].format(e=e)
+        if len(case) > 4:
+            text = text.replace(' ', {'nl': '\n', 'tab': '\t', 'sp2': '  '}[case[4]])
         out = parsing.outcome(text, d)
         ops = ops_of(t)
         for o in ops:
@@ -365,8 +371,11 @@ class CHECK(Check):
                 'supported_operators': self.supported, 'contexts': self.contexts}
 
     def describe_case(self, case):
-        d, ctx, t, pp = case
-        return {'dialect': d, 'context': ctx, 'text': CONTEXTS[ctx].format(e=show(t, pp)), 'redundant_parentheses_at': [list(p) for p in pp]}
+        d, ctx, t, pp = case[:4]
+        text = CONTEXTS[ctx].format(e=show(t, pp))
+        if len(case) > 4:
+            text = text.replace(' ', {'nl': '\n', 'tab': '\t', 'sp2': '  '}[case[4]])
+        return {'dialect': d, 'context': ctx, 'text': text, 'redundant_parentheses_at': [list(p) for p in pp]}
 
 
 def all_paths(t, path=()):
